@@ -286,7 +286,10 @@ func decodeTfxd(s bits.SliceReader) (*TfxdData, error) {
 }
 
 func (t *TfxdData) size() uint64 {
-	return 4 + 8 + 8*uint64(t.Version)
+	if t.Version == 0 {
+		return 4 + 8
+	}
+	return 4 + 16 // 64-bit fields for every other version, as in decode and encode
 }
 
 func (t *TfxdData) encode(sw bits.SliceWriter) error {
@@ -325,7 +328,10 @@ func decodeTfrf(s bits.SliceReader) (*TfrfData, error) {
 }
 
 func (t *TfrfData) size() uint64 {
-	return 4 + 1 + (8+8*uint64(t.Version))*uint64(t.FragmentCount)
+	if t.Version == 0 {
+		return 4 + 1 + 8*uint64(t.FragmentCount)
+	}
+	return 4 + 1 + 16*uint64(t.FragmentCount) // 64-bit fields for every other version
 }
 
 func (t *TfrfData) encode(sw bits.SliceWriter) error {
